@@ -326,12 +326,9 @@ func kvKeysOf(kvs []core.KV) []interface{} {
 	return out
 }
 
-// enumC10Giant (thorough tier): an eighteen-level tree (2^17+8 consecutive keys at branch factor 2), iterated from its
+// enumC10Giant: an eighteen-level tree (2^17+8 consecutive keys at branch factor 2), iterated from its
 // first key, walked forward over its whole length and backward from its maximum.
 func enumC10Giant(tier string, shard, nshards int, yield func(C10Case) bool) (bool, string) {
-	if tier != "thorough" {
-		return false, ""
-	}
 	const n = 1<<17 + 8
 	for i, res := range []string{"memory", "reloaded"} {
 		if i%nshards != shard%2 || shard >= 2 {
